@@ -118,7 +118,7 @@ def handle (p : List Sexp) : String :=
       | some (f, []) =>
         let t := goDate f
         let impl := showT (applyDelta td (-1) (applyDelta td 1 t))
-        if clamps td 1 t then answer impl "?"
+        if clamps td 1 t || mixedDelta td then answer impl "?"
         else
           let spec := showT t
           if impl == spec then answer impl
